@@ -294,7 +294,7 @@ def run_unit(u):
         part.violation(PID, 'wavefront-error-zero', 'Wavefront', c, u, observed=float(np.nanmax(np.abs(d))) if np.any(fd) else 'nan',
                        expected=0.0, tol=1e-6)
     # every parity of (pupil sampling, padded grid): the peak sample is read at the centre of the grid
-    for nr_, gs_ in ((32, 128), (32, 127), (33, 128), (33, 129)):
+    for nr_, gs_ in ((32, 128), (32, 127), (33, 128), (33, 129), (11, 64), (21, 64), (31, 96)):   # 11, 21, 31: rim points with x^2 + y^2 == 1 + 2e-16
         psf = FFTPSF(o, (0.0, 0.0), w, num_rays=nr_, grid_size=gs_)
         part.evals += 1
         part.transitions += 1
